@@ -24,7 +24,7 @@ import (
 	"verif/internal/wx"
 )
 
-var suite = vrt.NewSuite("C20", "(plan array, root document): plans are generated from a typed grammar over all documented functions except inspect (arithmetic, comparison, logic, cond, get / getall / set / setall / del / delall, at / root, list and string functions, predicates, conversions, time, zone, each, quote, asm) with literals, $.src / $.asm / @ paths and nested calls to depth 3 as arguments, 1-5 steps per plan, and a generated share of arguments of the wrong kind, wrong arity and hostile values (0, -0.0, 2^53+1, MinInt64, empty strings and lists, non ASCII text); roots hold typed slots under $.src (ints, floats, strings, booleans, null, lists with spare capacity, lists of maps, nested maps). Oracles: (totality) asm.NewPlan, Plan.Execute, String and Simplify never panic or hang; (determinism) two executions on equal roots give equal roots and the same error status; (documented semantics) a reference evaluator written from the function descriptions in asm/doc.go decides the resulting root or that an error is due, and gives up where a description is silent; (round trip) the plan rebuilt from String() and from Simplify() behaves the same; (non-interference) $.src is unchanged unless the plan holds a set / setall / del / delall whose target is not a $.asm slot. Non-trivial = the reference decided the outcome and the plan has a nested call or a path argument; distinct = distinct (plan, root)")
+var suite = vrt.NewSuite("C20", "(plan array, root document): plans are generated from a typed grammar over all documented functions except inspect (arithmetic, comparison, logic, cond, get / getall / set / setall / del / delall, at / root, list and string functions, predicates, conversions, time, zone, each, quote, asm) with literals, $.src / $.asm / @ paths and nested calls to depth 3 as arguments, 1-5 steps per plan (a quarter start with a path or a plain string whose value the next step reads through @, with the asm name written or implied), and a generated share of arguments of the wrong kind, wrong arity and hostile values (0, -0.0, 2^53+1, MinInt64, empty strings and lists, non ASCII text); roots hold typed slots under $.src (ints, floats, strings, booleans, null, lists with spare capacity, lists of maps, nested maps). Oracles: (totality) asm.NewPlan, Plan.Execute, String and Simplify never panic or hang; (determinism) two executions on equal roots give equal roots and the same error status; (documented semantics) a reference evaluator written from the function descriptions in asm/doc.go decides the resulting root or that an error is due, and gives up where a description is silent; (round trip) the plan rebuilt from String() and from Simplify() behaves the same; (non-interference) $.src is unchanged unless the plan holds a set / setall / del / delall whose target is not a $.asm slot. Non-trivial = the reference decided the outcome and the plan has a nested call or a path argument; distinct = distinct (plan, root)")
 
 type Case struct {
 	Plan any `json:"plan"` // wx.Enc of the plan array
